@@ -26,7 +26,6 @@ func init() {
 	rt.Register("c05definefam", RunDefineFamily)
 }
 
-
 // token alphabet: every sequence up to the length bound is offered as a TICKscript
 var tokens = []string{
 	"stream", "batch", "\n|from()", "\n|query('SELECT x FROM db.rp.m')", ".measurement('m')", "\n|where(lambda: \"x\" > 1)", "\n|eval(lambda: \"x\" + 1)", ".as('y')",
@@ -135,7 +134,6 @@ func lambdaOne(src string, t *tally, bad *[]string) {
 
 var lambdaTokens = []string{"\"x\"", "\"f\"", "1", "0", "1.0", "'s'", "1s", "/r/", "TRUE", "+", "-", "*", "/", "%", "==", "!=", "<", "=~", "AND", "OR", "!", "(", ")", ",",
 	"int(", "float(", "string(", "strSubstring(", "strIndex(", "count(", "sigma(", "if(", "abs(", "duration(", "pow(", "strLength(", "hour(", "isPresent(", "humanBytes("}
-
 
 type emitFn func(kind string, length int, first string, t tally, bad []string)
 
@@ -259,7 +257,7 @@ var families = []struct {
 	fn   func(r *rt.Run, env *rt.Env, emit emitFn)
 }{
 	{"tick", famTick}, {"lambda", famLambda}, {"unicode", famUnicode}, {"bytes", famBytes}, {"bytesctx", famBytesCtx},
-	{"mutants", famMutants}, {"vars", famVars}, {"pjson", famPJSON},
+	{"mutants", famMutants}, {"vars", famVars}, {"pjson", famPJSON}, {"write", famWrite},
 }
 
 // ---- the input being processed, visible to the parent after a process-fatal outcome ----
